@@ -198,16 +198,20 @@ func check(ctx *pbt.Ctx, c Case) error {
 	beforeBytes := ref.Encode(before, true)
 	ctx.Key(beforeBytes, []byte(fmt.Sprint(c.Quote.Std, c.Quote.Data, c.Dest, c.Mainnet, c.Index)), c.Hash, c.Script)
 	fq := ref.FeeQuoteToLib(c.Quote)
-	dust := new(big.Int).SetUint64(bt.DustLimit)
-	slack := slackOf(c.Quote)
+	addr, opErr, err := callChange(tx, fq, c)
+	if err != nil {
+		return err
+	}
+	return judge(ctx, c, before, tx, opErr, addr)
+}
 
-	var addr string
-	var opErr error
+// callChange performs the change operation of the case on tx with the quote object fq.
+func callChange(tx *bt.Tx, fq *bt.FeeQuote, c Case) (addr string, opErr, harnessErr error) {
 	switch c.Dest {
 	case destAddress:
 		a, aerr := bscript.NewAddressFromPublicKeyHash(c.Hash, c.Mainnet)
 		if aerr != nil {
-			return fmt.Errorf("harness: address from hash: %v", aerr)
+			return "", nil, fmt.Errorf("harness: address from hash: %v", aerr)
 		}
 		addr = a.AddressString
 		opErr = tx.ChangeToAddress(addr, fq)
@@ -216,6 +220,17 @@ func check(ctx *pbt.Ctx, c Case) error {
 	case destExisting:
 		opErr = tx.ChangeToExistingOutput(uint(c.Index), fq)
 	}
+	return addr, opErr, nil
+}
+
+// judge is the oracle of one change operation: before is the independent model of the
+// transaction as it stood when the operation was called (c.Tx is not looked at, only the
+// quote and the destination of c), tx the library object afterwards, opErr what the
+// operation returned.
+func judge(ctx *pbt.Ctx, c Case, before ref.Tx, tx *bt.Tx, opErr error, addr string) error {
+	beforeBytes := ref.Encode(before, true)
+	dust := new(big.Int).SetUint64(bt.DustLimit)
+	slack := slackOf(c.Quote)
 	after := ref.FromLib(tx)
 	afterBytes := ref.Encode(after, true)
 	unchanged := bytes.Equal(beforeBytes, afterBytes)
